@@ -9,7 +9,7 @@
     the real snapshot is tied by the correspondence check, which compares the tree it
     returns after every real set_sparse_patterns call. *)
 From Verif Require Import Base.Prelude Base.FsC Base.WcC Base.C24Chk Base.C25Chk Base.C27Chk Base.WcNames Model.C27.
-From Verif Require Import Proofs.FsC Proofs.WcCore Proofs.C24Step Proofs.C24Diff Proofs.C24Main Proofs.C25Main Proofs.C27Main Proofs.C27Refuted.
+From Verif Require Import Proofs.FsC Proofs.WcCore Proofs.C24Step Proofs.C24Diff Proofs.C24Main Proofs.C25Main Proofs.C27Main Proofs.C27Refuted Proofs.C27Seq.
 Local Open Scope string_scope.
 Local Open Scope list_scope.
 
@@ -51,6 +51,34 @@ Section Statements.
   Theorem C27_snapshot_keeps_outside : forall m t f p v,
     nodup_paths (keys t) = true -> leaf t p = Some v -> m p = false -> In (p, v) (snap_sparse f m t).
   Proof. exact snap_sparse_outside. Qed.
+
+  (** Sequences (the property quantifies over sequences of pattern sets): from a clean disk every
+      call of ANY sequence of set_sparse_patterns calls succeeds, and afterwards the disk holds
+      exactly the tree inside the LAST patterns plus the same untracked entries, the tree is
+      still the same and the last patterns are recorded. *)
+  Theorem C27_sequence : forall ps w u f,
+    tok rn (wc_tree w) -> nodup_paths (keys (wc_tree w)) = true -> flat_ok (wc_tree w) ->
+    uokp rn u (keys (wc_tree w)) ->
+    models (restrict (matches (wc_sparse w)) (wc_tree w)) u f ->
+    let '(rs, f', w') := set_sparse_seq rn f w ps in
+    Forall (fun r => exists st, r = ROk st) rs /\ length rs = length ps
+    /\ models (restrict (matches (last ps (wc_sparse w))) (wc_tree w)) u f'
+    /\ wc_tree w' = wc_tree w /\ wc_sparse w' = last ps (wc_sparse w).
+  Proof. exact (set_sparse_seq_clean rn). Qed.
+
+  (** Path independence: two sequences ending with the same patterns leave the same disk at
+      every path, the same tree and the same recorded patterns (so a detour through other
+      pattern sets is the same as setting the final patterns directly). *)
+  Theorem C27_path_independent : forall ps1 ps2 w u f,
+    tok rn (wc_tree w) -> nodup_paths (keys (wc_tree w)) = true -> flat_ok (wc_tree w) ->
+    uokp rn u (keys (wc_tree w)) ->
+    models (restrict (matches (wc_sparse w)) (wc_tree w)) u f ->
+    last ps1 (wc_sparse w) = last ps2 (wc_sparse w) ->
+    let r1 := set_sparse_seq rn f w ps1 in
+    let r2 := set_sparse_seq rn f w ps2 in
+    (forall q, lookup (snd (fst r1)) q = lookup (snd (fst r2)) q)
+    /\ wc_tree (snd r1) = wc_tree (snd r2) /\ wc_sparse (snd r1) = wc_sparse (snd r2).
+  Proof. exact (set_sparse_path_independent rn). Qed.
 
   (** The hypotheses are decided on every clean recorded step. *)
   Theorem C27_hypotheses_decided : forall c, C27Chk.pre_ok rn c = true ->
@@ -99,6 +127,19 @@ Example C27_nonvacuous :
   /\ snap_sparse (o_fs o2) (matches [pth "b"; pth "a/y"]) ex_t = ex_t.
 Proof. vm_compute. repeat split. Qed.
 
+Example C27_sequence_nonvacuous :
+  let w0 := mkWc [] [] [[]] in
+  let '(o0, w1) := check_out reserved_names ex_u w0 ex_t in
+  let '(rs, f', w') := set_sparse_seq reserved_names (o_fs o0) w1
+                         [[pth "a"; pth "d"]; [pth "b"; pth "a/y"]; []; [pth "d"; pth "b"]] in
+  let '(rs2, f2, w2) := set_sparse_seq reserved_names (o_fs o0) w1 [[pth "d"; pth "b"]] in
+  rs = [ROk (mkStats 0 0 1 0); ROk (mkStats 1 0 2 0); ROk (mkStats 0 0 2 0); ROk (mkStats 2 0 0 0)]
+  /\ models_b (restrict (matches [pth "d"; pth "b"]) ex_t) ex_u f' = true
+  /\ models_b (restrict (matches [pth "d"; pth "b"]) ex_t) ex_u f2 = true
+  /\ wc_tree w' = ex_t /\ wc_sparse w' = [pth "d"; pth "b"]
+  /\ lookup f' (pth "d/u") = Some (EFile "mine" false) /\ lookup f' (pth "a/x") = None
+  /\ lookup f' (pth "d/z") = lookup f2 (pth "d/z").
+Proof. vm_compute. repeat split. Qed.
 (** Without the cleanliness hypothesis the statement is false of the faithful model (and
     of the code, see the known-finding class [C27Chk.known_class]): the removal pass can
     skip a path, and then assert_eq!(removed_stats.skipped_files, 0) fails after the disk
@@ -113,3 +154,5 @@ Print Assumptions C27_exact_delta.
 Print Assumptions C27_tree_unchanged.
 Print Assumptions C27_snapshot_respects.
 Print Assumptions C27_checker_spec.
+Print Assumptions C27_sequence.
+Print Assumptions C27_path_independent.
